@@ -42,7 +42,7 @@ pub fn gen_pool_long(src: &mut Src, max_ops: usize) -> Pool {
         1 => vec![1, 2],
         _ => vec![1, 2, 200],
     };
-    let mut t = *src.pick(&[100_000u64, 3_700, 1_000_000]);
+    let mut t = *src.pick(&[100_000u64, 3_700, 1_000_000, 10]);
     let mut ops = vec![];
     let mut counter = 0u16;
     for _ in 0..n {
@@ -103,7 +103,7 @@ pub fn gen_pool(src: &mut Src, max_ops: usize) -> Pool {
         Mode::Window => 3_000,
         Mode::Prefix => *src.pick(&[21_600u64, 3_700, 8_000]),
     };
-    let base = *src.pick(&[100_000u64, 3_700, 1_000_000]);
+    let base = *src.pick(&[100_000u64, 3_700, 1_000_000, 10]);
     let mut sg = StampGen::new(base, window, nodes.clone());
     let mut ops = vec![];
     for _ in 0..n {
